@@ -6,7 +6,7 @@ SPEC = {
         "claim": {
             "category": "exploration",
             "technique": "bounded-exhaustive enumeration + rapidcheck generated arrays against an arithmetic RFC 4648 reference and decode/encode round trip",
-            "text": "Every 3-byte group (2^24), every 1- and 2-byte tail, alone and after a prefix group, is encoded and decoded through all four codec entry points and compared with an independent arithmetic RFC 4648/hex reference; generated arrays up to 400 bytes cover every length class. The per-group behaviour is exhausted; longer inputs are sampled. Both tiers run a second build with an unsigned plain char (-funsigned-char; a reduced number of generated cases and no enumerators in the quick tier).",
+            "text": "Every 3-byte group (2^24), every 1- and 2-byte tail, alone and after a prefix group, is encoded and decoded through all four codec entry points and compared with an independent arithmetic RFC 4648/hex reference; generated arrays up to 400 bytes cover every length class. The per-group behaviour is exhausted; longer inputs are sampled. Both tiers run a second build with an unsigned plain char (-funsigned-char; a reduced number of generated cases and no enumerators in the quick tier). Enumerated: lengths c-3..c+4 for c in {3072, 6144, 9216, 12288, 18432, 27648, 36864, 4096, 8192, 16384, 32768, 49152, 65536, 98304} with never-zero content.",
             "level_note": "Trusts harness/ref/ref_codecs.h (45 lines, table-free) as the reading of RFC 4648, and ASan/UBSan for memory errors; arrays longer than 400 bytes are not generated.",
         },
         "assumptions": ["reference encoders in harness/ref/ref_codecs.h are a correct reading of RFC 4648", "ASan/UBSan report every out-of-bounds access to the exact-size input and output blocks"],
